@@ -66,11 +66,11 @@ class ShocStandard(ArakawaC):
     @cached_property
     def time_coordinate(self) -> xarray.DataArray:
         name = 't'
-        try:
-            return self.dataset[name]
-        except KeyError:
+        # `dataset[name]` would make up a variable for a dimension of that name
+        if name not in self.dataset.variables:
             raise NoSuchCoordinateError(
                 f"SHOC dataset did not have expected time coordinate {name!r}")
+        return self.dataset[name]
 
     def drop_geometry(self) -> xarray.Dataset:
         dataset = super().drop_geometry()
@@ -133,8 +133,8 @@ class ShocSimple(CFGrid2D):
     @cached_property
     def time_coordinate(self) -> xarray.DataArray:
         name = 'time'
-        try:
-            return self.dataset[name]
-        except KeyError:
+        # `dataset[name]` would make up a variable for a dimension of that name
+        if name not in self.dataset.variables:
             raise NoSuchCoordinateError(
                 f"SHOC dataset did not have expected time coordinate {name!r}")
+        return self.dataset[name]
